@@ -61,6 +61,8 @@ def gen_case(rng, ctx, kind=None):
             else:
                 r2 = rng.random()
                 v = pick(rng, [0, 1, 1, 2, 3, 7]) if r2 < 0.7 else int(rng.integers(8, 5001 if kind == "log16" or cfg["max_count"] <= 5000 else 600))
+                if r2 > 0.985:
+                    v = pick(rng, [65536, 65537, 65536 + int(rng.integers(0, 1100)), 2**17 + 1, 2**16 - 1])
             events.append([int(rng.integers(0, 2)), ["add", hx(k), v]])
     strangers = [hx(rand_key(rng, 0, 6)) for _ in range(3)]
     return {"cfg": cfg, "events": events, "strangers": strangers}
